@@ -2,7 +2,7 @@
 Run-time contract: if inspection+validation report no error and the initial context holds exactly the reported required
 keys, the run does not fail on flow (unresolvable parameter / missing key / unknown parameter / data-type gate), and the
 per-node created/suppressed keys are exactly the keys that appear/disappear.
-Bound: pipelines of length <= 3 exhaustively (<= 2) or sampled (3, 4) over 19 node configurations (length 3 exhaustive over the 11 flow-relevant ones)."""
+Bound: pipelines of length <= 3 exhaustively (<= 2) or sampled (3, 4) over 19 node configurations (length 3 exhaustive over the 11 flow-relevant ones) + 7 fixed pipelines around parameter sweeps whose <var>_values are consumed downstream."""
 import json, sys, logging, os
 logging.disable(logging.CRITICAL)
 sys.path.insert(0, os.path.dirname(os.path.abspath(__file__)))
@@ -45,7 +45,7 @@ def run(cfg, ctx, data=None):
 
 
 NP = len(pipegen.node_pool())
-cases = pipegen.pipelines(2, seed) + pipegen.core_pipelines(3)
+cases = pipegen.extra_pipelines() + pipegen.pipelines(2, seed) + pipegen.core_pipelines(3)
 cases += pipegen.pipelines(3, seed, sample=(6000 if thorough else 600))[NP + NP * NP:]
 cases += pipegen.pipelines(4, seed + 1, sample=(3000 if thorough else 300))[NP + NP * NP + (6000 if thorough else 600):]
 if thorough:
